@@ -43,6 +43,14 @@ def gen_cases(tier, seed):
     # the upstream into a helper thread (parallelize)
     for i in range({'quick': 3, 'thorough': 12}[tier]):
         yield {'family': 'caller_context', 'idx': 3 * 10 ** 6 + i, 'seed': seed}
+    # steps that compute with Decimals next to other steps, under the DEFAULT context: a step must not leave its own
+    # context settings in force while it is suspended between two rows
+    for i in range({'quick': 4, 'thorough': 16}[tier]):
+        yield {'family': 'neighbour_context', 'idx': 4 * 10 ** 6 + i, 'seed': seed}
+    # field-level steps over resources with DIFFERENT fields, followed by a step that takes hold of all the resource
+    # streams before it reads any (to walk them side by side)
+    for i in range({'quick': 24, 'thorough': 400}[tier]):
+        yield {'family': 'held_streams', 'idx': 5 * 10 ** 6 + i, 'seed': seed}
     # the same rejection of alien links with assertions disabled (python -O)
     yield {'family': 'alien_optimized', 'idx': 10 ** 6, 'seed': seed}
 
@@ -399,9 +407,101 @@ def run_caller_context(case):
                 sample={'rows': n, 'precision': prec})
 
 
+def _third(row):
+    row['r'] = row['a'] / row['b']
+
+
+def run_neighbour_context(case):
+    import decimal
+    rng = boot.rng(case['seed'], 'C01', 'neighbour', case['idx'])
+    d = lab.df()
+    counters = {'strategies_compared': 0, 'stepwise_runs': 0, 'links_rejected': 0}
+    viol = []
+    n = rng.choice([3, 30])
+    rows = [{'id': i, 'a': decimal.Decimal(i + 4), 'b': decimal.Decimal(3), 'r': None} for i in range(n)]
+    F = [{'name': 'id', 'type': 'integer'}, {'name': 'a', 'type': 'number'}, {'name': 'b', 'type': 'number'},
+         {'name': 'r', 'type': 'number'}]
+    op_ = rng.choice(['sum', 'avg', 'max'])
+    computed = lambda: d.add_computed_field([{'target': 'tot', 'operation': op_, 'source': ['a', 'b']}])   # noqa: E731
+    order = rng.choice(['computed_first', 'computed_last', 'both_sides'])
+    mid = [lambda: _third]
+    bs = [lambda: lab.source('t', F, rows)] + {'computed_first': [computed] + mid, 'computed_last': mid + [computed],
+                                               'both_sides': [computed] + mid + [lambda: d.set_type('r', type='number')]}[order]
+    with boot.quiet():
+        results, dp, _ = d.Flow(*[b() for b in bs]).results(on_error=None)
+    base = outcome(dp.descriptor, results)
+    sw = run_stepwise(bs)
+    counters['stepwise_runs'] += 1
+    counters['strategies_compared'] += 1
+    with lab.exact_decimals():
+        dd = diff(base, sw)
+    if dd:
+        viol.append({'kind': 'lazy_vs_stepwise', 'mech': 'lazy_vs_stepwise/neighbour_context',
+                     'msg': 'a row step dividing Decimals next to add_computed_field (%s): lazy != step-by-step: %s'
+                     % (order, dd[:500])})
+    return dict(nontrivial=True, violations=viol, counters=counters,
+                cov={'op_x_position': {}, 'callable_shape': {}, 'strategy': {'neighbour_context/%s' % order: 1}},
+                sample={'rows': n, 'order': order})
+
+
+HELD_OPS = ['add_field', 'delete_fields', 'select_fields', 'rename_fields', 'add_computed_field', 'find_replace',
+            'set_type', 'validate', 'filter_rows', 'update_resource', 'update_schema']
+
+
+def run_held_streams(case):
+    rng = boot.rng(case['seed'], 'C01', 'held', case['idx'])
+    d = lab.df()
+    counters = {'strategies_compared': 0, 'stepwise_runs': 0, 'links_rejected': 0}
+    viol = []
+    tables = dsl.initial_tables(rng, nres=rng.choice([2, 3]), sizes=(1, 3, 7))
+    tables, specs, _ = dsl.gen_program(rng, length=rng.randint(1, 3), ops=HELD_OPS, tables=tables)
+    specs = [dict(sp, form='function') if sp['op'] == 'user' else sp for sp in specs]
+    prog = dsl.render(tables, specs)
+
+    def steps(tag):
+        env = dsl.Env(tag)
+        return [dsl.build_source(t) for t in tables] + [dsl.OPS[sp['op']].build(sp, env) for sp in specs]
+
+    def hold(package):
+        yield package.pkg
+        held = []
+        streams = list(package)             # all streams taken first ...
+        for st in reversed(streams):        # ... and read last one first
+            held.append(list(st))
+        for rows_ in reversed(held):
+            yield iter(rows_)
+    try:
+        with boot.quiet():
+            r1, dp1, _ = d.Flow(*steps('plain')).results(on_error=None)
+    except Exception:
+        return dict(nontrivial=False, violations=[], counters=counters, cov={'op_x_position': {}, 'callable_shape': {}, 'strategy': {}})
+    base = outcome(dp1.descriptor, r1)
+    try:
+        with boot.quiet():
+            r2, dp2, _ = d.Flow(*(steps('held') + [hold])).results(on_error=None)
+        counters['strategies_compared'] += 1
+        dd = diff(base, outcome(dp2.descriptor, r2))
+        if dd:
+            viol.append({'kind': 'held_streams', 'mech': 'held_streams/differs', 'program': prog,
+                         'msg': 'a later step that takes all resource streams before reading them (last one first) changes '
+                         'the rows: %s; program %s' % (dd[:400], gen.render(prog, 900))})
+    except Exception as e:
+        c = getattr(e, 'cause', e)
+        viol.append({'kind': 'held_streams', 'mech': 'held_streams/failed', 'program': prog,
+                     'msg': 'a later step that takes all resource streams before reading them makes the run fail: %s: %s; '
+                     'program %s' % (type(c).__name__, str(c)[:200], gen.render(prog, 900))})
+    return dict(nontrivial=True, violations=viol, counters=counters,
+                cov={'op_x_position': {'%s@held' % sp['op']: 1 for sp in specs}, 'callable_shape': {},
+                     'strategy': {'held_streams': 1}}, sample={'program': prog})
+
+
 def run_case(case):
     if case['family'] == 'alien_optimized':
         return run_alien_optimized(case)
+    if case['family'] == 'neighbour_context':
+        return run_neighbour_context(case)
+    if case['family'] == 'held_streams':
+        return run_held_streams(case)
     if case['family'] == 'caller_context':
         return run_caller_context(case)
     if case['family'] == 'repeated_step':
